@@ -609,6 +609,8 @@ struct Outcome {
     supply: u128,
     c03: Vec<String>,
     extend: Option<String>,
+    /// a reference node holding the same chain cannot produce the extension either
+    extend_ref_fails: bool,
     restart_ops: (usize, usize),
     deleted: Vec<String>,
     intact_on_disk: usize,
@@ -664,6 +666,7 @@ async fn eval_crash_point(h: &HistShared, cp: &CrashPoint) -> Outcome {
         supply: 0,
         c03: vec![],
         extend: None,
+        extend_ref_fails: false,
         restart_ops: (0, 0),
         deleted: vec![],
         intact_on_disk,
@@ -748,6 +751,41 @@ async fn eval_crash_point(h: &HistShared, cp: &CrashPoint) -> Outcome {
             Ok(Err(m)) => Some(m),
             Err(m) => Some(format!("panic while extending the restarted chain: {}", m)),
         };
+        if out.extend.is_some() {
+            // reference: a fresh node that is fed the ancestry of that tip, in order, from the
+            // pristine blocks; if it cannot extend the same chain either, the restart is not at fault
+            // (the producer has defects of its own, e.g. rebroadcast inputs - C07 / C13)
+            let mut path = vec![];
+            let mut cur = h.tree_blocks.iter().position(|b| b.block.hash == tip_hash);
+            while let Some(c) = cur {
+                path.push(c);
+                cur = h.tree_blocks[c].parent;
+            }
+            path.reverse();
+            let mut r = Node::new(&h.params, 1);
+            let mut ok = true;
+            for i in path {
+                let c = futures_catch(AssertUnwindSafe(r.add_block(h.tree_blocks[i].block.clone()))).await;
+                if c != Ok(AddClass::OnChain) {
+                    ok = false;
+                    break;
+                }
+            }
+            if ok {
+                let rr = futures_catch(AssertUnwindSafe(async {
+                    let b = make_block(&r, tip_hash, ts + 100_000, vec![], true, 4242).await?;
+                    let c = r.add_block(b).await;
+                    if c != AddClass::OnChain {
+                        return Err(format!("{:?}", c));
+                    }
+                    Ok(())
+                }))
+                .await;
+                if !matches!(rr, Ok(Ok(()))) {
+                    out.extend_ref_fails = true;
+                }
+            }
+        }
     }
     out
 }
@@ -797,6 +835,8 @@ struct Verdict {
     known: Vec<(&'static str, String)>,
     tip_class: &'static str,
     lost: u64,
+    /// the producer cannot extend this chain on a reference node either
+    ext_blocked: bool,
 }
 
 fn judge(ctx: &Ctx, cp: &CrashPoint, out: &Result<Outcome, String>) -> Verdict {
@@ -891,9 +931,14 @@ fn judge(ctx: &Ctx, cp: &CrashPoint, out: &Result<Outcome, String>) -> Verdict {
         ));
     }
     let orphaned = !out.orphans.is_empty() && explained;
+    // likewise every failure of a node that came up on a competing branch (listed finding): such a
+    // branch can be short and partly purged, so its ledger cannot be the replay of what is stored
+    let forked = v.tip_class == "other-known-branch";
     let mut fail = |v: &mut Verdict, id: Option<&'static str>, w: String| {
         if orphaned {
             v.known.push((ID_ORPHAN, format!("{} (blocks with ids {:?} were replayed while their parent was not stored)", w, out.orphans)));
+        } else if forked {
+            v.known.push((ID_FORK, format!("{} (the node restarted on a competing branch)", w)));
         } else if let Some(id) = id {
             v.known.push((id, w));
         } else {
@@ -958,7 +1003,11 @@ fn judge(ctx: &Ctx, cp: &CrashPoint, out: &Result<Outcome, String>) -> Verdict {
     }
     // ---- can extend
     if let Some(m) = &out.extend {
-        fail(&mut v, None, format!("cannot extend: {}", m));
+        if out.extend_ref_fails {
+            v.ext_blocked = true;
+        } else {
+            fail(&mut v, None, format!("cannot extend: {}", m));
+        }
     }
     v
 }
@@ -1091,9 +1140,66 @@ fn impl_rows(int: &mut chainsim::Interned, o: &Outcome) -> Vec<Vec<u64>> {
     rows
 }
 
+/// more than 1000 block files: ConsensusThread::on_init loads them in batches of 1000 and an
+/// undecodable file aborts only its own batch.  Linear chain of `n` blocks (genesis period large
+/// enough that nothing is purged), the file at position `torn_at` (1-based, in name order) torn as by
+/// a crash during a start-up rewrite.  Returns (history, crash point).
+async fn batch_gap_history(n: usize, torn_at: usize) -> (Hist, CrashPoint) {
+    let gp = n as u64;
+    let mut params = chainsim::params(gp, false);
+    params.prune_after_blocks = 2 * gp;
+    let mut node = Node::new(&params, 1);
+    let mut h = Hist { params: params.clone(), blocks: vec![], marks: vec![], journal: vec![], issued: 0, notes: vec![] };
+    let issuance: Vec<_> = (0..4).map(|k| (node.pk, 1_000_000 + 1000 * k as u64)).collect();
+    h.issued = issuance.iter().map(|(_, a)| *a as u128).sum();
+    let g = make_genesis(&node, 1_000_000, &issuance).await.expect("genesis");
+    h.blocks.push(HBlock { block: g, parent: None, eff_invalid: false });
+    deliver(&mut h, &mut node, 0).await;
+    for i in 1..n {
+        let parent = h.blocks[i - 1].block.clone();
+        // a golden ticket in every second block keeps the density rule and the difficulty flat
+        let blk = make_block(&node, parent.hash, parent.timestamp + 1000, vec![], true, i as u64).await;
+        let blk = match blk {
+            Ok(b) => b,
+            Err(e) => {
+                h.notes.push(format!("batch-gap history: producer failed at block {}: {}", i + 1, e));
+                break;
+            }
+        };
+        h.blocks.push(HBlock { block: blk, parent: Some(i - 1), eff_invalid: false });
+        if deliver(&mut h, &mut node, i).await != AddClass::OnChain {
+            h.notes.push(format!("batch-gap history: block {} not accepted", i + 1));
+            break;
+        }
+    }
+    h.journal = node.disk.lock().unwrap().journal.clone();
+    // the start-up rewrite of file `torn_at`, interrupted
+    if let Some(DiskOp::Write(name, bytes)) = h.journal.get(torn_at - 1).cloned() {
+        h.journal.push(DiskOp::Write(name, bytes));
+    }
+    let k = h.journal.len();
+    (h, CrashPoint { k, torn: Some(("inside-header", 100)) })
+}
+
 fn main() {
     verif_harness::common::init_log();
     let args = Args::parse();
+    if let Ok(v) = std::env::var("C12_BATCHGAP") {
+        let parts: Vec<usize> = v.split(':').map(|x| x.parse().unwrap()).collect();
+        let rt = tokio::runtime::Builder::new_current_thread().enable_all().build().unwrap();
+        let t0 = std::time::Instant::now();
+        let (h, cp) = rt.block_on(batch_gap_history(parts[0], parts[1]));
+        eprintln!("built {} blocks in {:?}; notes {:?}", h.blocks.len(), t0.elapsed(), h.notes);
+        let ctx = Ctx { h: &h, by_hash: h.blocks.iter().enumerate().map(|(i, b)| (b.block.hash, i)).collect() };
+        let shared = Arc::new(HistShared { params: h.params.clone(), journal: h.journal.clone(), tree_blocks: h.blocks.clone() });
+        let out = run_crash_point(&shared, &cp, Duration::from_secs(600));
+        let v = judge(&ctx, &cp, &out);
+        if let Ok(o) = &out {
+            eprintln!("outcome: panic {:?} loaded {} intact {} ops {:?} deleted {} supply {} c03 {:?} extend {:?} orphans {:?} tip {:?}", o.panic, o.loaded, o.intact_on_disk, o.restart_ops, o.deleted.len(), o.supply, o.c03, o.extend, o.orphans, o.snap.as_ref().map(|s| (s.tip_id, s.lc_index.len(), s.lc_index.first().cloned().map(|x| x.0), s.blocks.len())));
+        }
+        eprintln!("verdict {} lost {} failures {:?} known {:?} in {:?}", v.tip_class, v.lost, v.failures, v.known, t0.elapsed());
+        return;
+    }
     let thorough = args.tier == "thorough";
     let mut rng = Rng::new(args.seed);
     let mut summary = Summary::new("C12");
@@ -1325,6 +1431,7 @@ fn main() {
             summary.count("clean_shutdown_point", &clean.to_string());
             summary.count("restarted_tip", v.tip_class);
             summary.count("blocks_lost", &v.lost.min(9).to_string());
+            summary.count("extension", if v.ext_blocked { "producer-fails-on-reference-node-too" } else { "checked" });
             summary.count("history_has_fork", &has_fork.to_string());
             summary.count("history_purged", &purged.to_string());
             summary.count("compared_with_model", &model.to_string());
